@@ -501,7 +501,7 @@ func TestC27(t *testing.T) {
 
 	// ---- random multisets through Aggregate ------------------------------------------------------------
 	norders := 20
-	r.ForEach("multiset", r.Pick(20000, 400000), 8, func(i int, rng *rand.Rand) {
+	r.ForEach("multiset", r.Pick(10000, 400000), 8, func(i int, rng *rand.Rand) {
 		c := genMulti(rng)
 		want := refFiles(c)
 		nontrivial := false
@@ -513,9 +513,15 @@ func TestC27(t *testing.T) {
 		r.Case(lib.JSON(c), nontrivial)
 		var first string
 		var firstOrder []int
+		var covs []*core.TestCoverage
+		var guards [][]vec
 		for k := 0; k < norders; k++ {
 			order := genOrder(rng, len(c.Runs), k%2 == 1)
-			covs, guards := materialise(c)
+			if k%5 == 0 {
+				// fresh inputs every fifth order; in between the same objects are aggregated again
+				// (they must be intact, which checkInputs verifies after every order)
+				covs, guards = materialise(c)
+			}
 			var acc *core.TestCoverage
 			how := "aggregate"
 			switch k % 3 {
